@@ -102,6 +102,34 @@ def handle (ws : List String) : String :=
         | .valueError => "ValueError"
       | _ => "bad-op"
     | _, _, _, _ => "bad-op"
+  -- restrictA <sup> <acc> <tree>: the generalised specification of recursive leaf filtering (then suppression)
+  | "restrictA" :: sup :: rest =>
+    match flag sup, parseAcc rest with
+    | some sup, some (acc, rest) =>
+      match parseTree rest with
+      | some (t, []) => match restrictA acc t with
+        | some r => (supIf sup r).render
+        | none => "none"
+      | _ => "bad-op"
+    | _, _ => "bad-op"
+  -- extractnode <sup> <fl> <fi> <start id> <acc> <tree>: Node.extract_subtree on any node
+  | "extractnode" :: sup :: fl :: fi :: i :: rest =>
+    match flag sup, flag fl, flag fi, i.toNat?, parseAcc rest with
+    | some sup, some fl, some fi, some i, some (acc, rest) =>
+      match parseTree rest with
+      | some (t, []) => match extractNode acc fl fi sup t i with
+        | .ok r => r.render
+        | .seedDeletion => "SeedNodeDeletion"
+        | .valueError => "ValueError"
+      | _ => "bad-op"
+    | _, _, _, _, _ => "bad-op"
+  -- measure <tree>: the measurement functions of the clause theorems: clade masks (sorted) | all leaf-to-leaf path lengths
+  | "measure" :: rest =>
+    match parseTree rest with
+    | some (t, []) =>
+      natList (sortNat t.masksPost) ++ " | " ++
+        " ".intercalate ((allDists t).map (fun e => s!"{e.1}:{e.2.1}:{match e.2.2 with | some f => f.render | none => "0"}"))
+    | _ => "bad-op"
   | _ => "bad-op"
 
 def main : IO Unit := do driverLoop (← IO.getStdin) handle
